@@ -235,9 +235,11 @@ class PopenExecutor(concurrent.futures.Executor):
 
         # submitting new futures after join() would be bad,
         # so we make this internal and only call it from shutdown()
-        with contextlib.suppress(concurrent.futures.CancelledError):
-            for future in list(self._futures):
-                future.result()
+        with self._lock:
+            futures = list(self._futures)
+
+        # wait for all of them, whatever they stored (result() would re-raise the first stored exception)
+        concurrent.futures.wait(futures)
 
 
 def main():
